@@ -50,6 +50,8 @@ func (Engine) Generate(prop, tier string, run int, seed uint64) *kernel.Scenario
 		return genSettleScenario(r, prop)
 	case "C08":
 		return genC08(r)
+	case "C12":
+		return genC12(r)
 	case "C07":
 		if r.Bool(0.35) {
 			return genC07V(r)
@@ -67,6 +69,8 @@ func (Engine) Execute(t *testing.T, sc *kernel.Scenario, trace bool) *kernel.Res
 		return execSettle(t, sc, trace)
 	case "C08":
 		return execC08(t, sc, trace)
+	case "C12":
+		return execC12(t, sc, trace)
 	case "C07":
 		if sc.Cfg("trio", 0) == 1 {
 			return execC07V(t, sc, trace)
@@ -108,6 +112,11 @@ func (Engine) Describe(prop string) kernel.Describe {
 		d.FaultKinds = append(append(append(append([]string{"delay/reorder", "yield hooks"}, c07OrdinaryMuts...), c07FundingMuts...), c07SettleMuts...), append(c07VFundMuts, c07VSettleMuts...)...)
 		d.Assumptions = []string{"the honest client's update handler accepts everything, so only library checks protect it",
 			"a stealing ordinary update on a no-app channel is acceptable by the statement (valid successor, sender is actor, locked unchanged): whether to accept it is the user handler's decision"}
+	case "C12":
+		d.Rule = "three real clients: victim H (hub) with ledger channels to the adversary's address A and to an honest client B, optionally an honest virtual channel A<->B; 1-6 hostile envelopes per run drawn from 70 kinds (ledger/sub/virtual proposals, proposal responses, updates, update responses, virtual funding/settlement proposals, sync messages) sent as A or as a stranger Z, re-serialised with the run's serializer, at drawn gaps, optionally while H holds its machine lock with a pending own request (3 s or 12 s) and a pending own proposal. Oracle: no process death, no stalled simulation, and after 30 simulated seconds honest probes on both channels return in time. Non-trivial: at least one hostile envelope was delivered; distinct = scenario digest x interleaving hash."
+		d.FaultKinds = append([]string{"delay/reorder", "machine lock held by pending request", "yield hooks"}, c12Kinds...)
+		d.Assumptions = []string{"decodable = survives Encode+Decode of the run's serializer; other envelopes are counted (probe.undecodable) and not sent",
+			"the adversary's real client does not answer sync messages", "runs are capped at 20000 seam events (probe.event_cap_hit)"}
 	case "C08":
 		d.Rule = "honest openings (ledger channels with drawn challenge duration up to 2^40 s, 1-3 assets, zero balances, funding agreement, app, aux; sub-channels) with scenario-controlled nonce shares, interleaved with crafted proposals that break exactly one validity condition, sent by a stranger or by the channel counterparty and passed through the real serializer. Oracles: identical parameters/ID/participant order/fully signed version-0 state equal to the proposal on both sides; different nonce shares => different IDs; handler never runs for a mutant, no channel is created from one, no panic, a later honest proposal succeeds. Non-trivial: at least one opening and (a mutant or a second opening)."
 		d.FaultKinds = append([]string{"delay/reorder", "yield hooks"}, c08Mutations...)
